@@ -1,32 +1,246 @@
-(* C19 — obligations: what each `_qasm_` rule emits, read with the standard library of the OpenQASM version,
-   is the gate's documented matrix up to an explicit unit factor, for every exponent of the rule's guard. *)
-From Coq Require Import List ZArith.
-From VF Require Import Base.RingOps Base.Mat Gates.GateSpecs Vendor.Qasm Vendor.QasmProofs.
-Import ListNotations.
+(* C19 — obligations (statements only; proofs in Vendor/Qasm*Proofs.v).  Deciding: what each `_qasm_` rule emits, read with
+   the standard library of the OpenQASM version, is the documented matrix of the gate up to an explicit unit factor, for
+   every exponent of the rule's guard; the regenerated mnemonic table is the emission model; the register layout.
+   Units: r = exp(i pi e/2), g = exp(i pi e s), w8 = exp(i pi/4); symbolic units carry their defining equations. *)
+From Coq Require Import List ZArith QArith Qcanon.
+From VF Require Import Base.RingOps Base.Mat Base.Tensor Base.K8 Base.Harness Gates.GateSpecs Gates.Families Sim.Ref Sim.Measure
+  Vendor.Qasm Vendor.QasmRegs Vendor.QasmProofs Vendor.QasmLibProofs Vendor.QasmRegsProofs Vendor.QasmSemProofs Vendor.QasmK16 Vendor.QasmK16Proofs.
 
-Theorem C19_rule_rx : forall K (O : Ops K), Laws O -> forall r rc g, kmul O r rc = k1 O ->
-  spec_XPow O r rc g = mscale O (kmul O g r) (q_rx O r rc).
-Proof. exact @qasm_rule_rx. Qed.
-Print Assumptions C19_rule_rx.
-
-Theorem C19_rule_ry : forall K (O : Ops K), Laws O -> forall r rc g, kmul O r rc = k1 O ->
-  spec_YPow O r rc g = mscale O (kmul O g r) (q_ry O r rc).
-Proof. exact @qasm_rule_ry. Qed.
-Print Assumptions C19_rule_ry.
-
-Theorem C19_rule_rz : forall K (O : Ops K), Laws O -> forall r rc g, kmul O r rc = k1 O ->
-  spec_ZPow O r rc g = mscale O g (q_rz O r rc).
-Proof. exact @qasm_rule_rz. Qed.
-Print Assumptions C19_rule_rz.
-
-Theorem C19_rule_x : forall K (O : Ops K), Laws O -> spec_XPow O (ki O) (kopp O (ki O)) (k1 O) = q_x O.
+(* ---- rules of the one-qubit EigenGate families ---- *)
+Theorem C19_qasm_rule_x : forall (K : Type) (O : Ops K), Laws O -> spec_XPow O (ki O) (kopp O (ki O)) (k1 O) = q_x O.
 Proof. exact @qasm_rule_x. Qed.
-Print Assumptions C19_rule_x.
+Print Assumptions C19_qasm_rule_x.
 
-Theorem C19_rule_sx : forall K (O : Ops K), Laws O -> spec_XPow O (w8 O) (w8c O) (k1 O) = mscale O (w8 O) (q_sx O).
+Theorem C19_qasm_rule_sx : forall (K : Type) (O : Ops K), Laws O -> spec_XPow O (w8 O) (w8c O) (k1 O) = mscale O (w8 O) (q_sx O).
 Proof. exact @qasm_rule_sx. Qed.
-Print Assumptions C19_rule_sx.
+Print Assumptions C19_qasm_rule_sx.
 
-Theorem C19_rule_sxdg : forall K (O : Ops K), Laws O -> spec_XPow O (w8c O) (w8 O) (k1 O) = mscale O (w8c O) (q_sxdg O).
+Theorem C19_qasm_rule_sxdg : forall (K : Type) (O : Ops K), Laws O -> spec_XPow O (w8c O) (w8 O) (k1 O) = mscale O (w8c O) (q_sxdg O).
 Proof. exact @qasm_rule_sxdg. Qed.
-Print Assumptions C19_rule_sxdg.
+Print Assumptions C19_qasm_rule_sxdg.
+
+Theorem C19_qasm_rule_rx : forall (K : Type) (O : Ops K), Laws O -> forall r rc g : K, kmul O r rc = k1 O -> spec_XPow O r rc g = mscale O (kmul O g r) (q_rx O r rc).
+Proof. exact @qasm_rule_rx. Qed.
+Print Assumptions C19_qasm_rule_rx.
+
+Theorem C19_qasm_rule_y : forall (K : Type) (O : Ops K), Laws O -> forall g : K, spec_YPow O (ki O) (kopp O (ki O)) g = mscale O g (q_y O).
+Proof. exact @qasm_rule_y. Qed.
+Print Assumptions C19_qasm_rule_y.
+
+Theorem C19_qasm_rule_ry : forall (K : Type) (O : Ops K), Laws O -> forall r rc g : K, kmul O r rc = k1 O -> spec_YPow O r rc g = mscale O (kmul O g r) (q_ry O r rc).
+Proof. exact @qasm_rule_ry. Qed.
+Print Assumptions C19_qasm_rule_ry.
+
+Theorem C19_qasm_rule_z : forall (K : Type) (O : Ops K), Laws O -> spec_ZPow O (ki O) (kopp O (ki O)) (k1 O) = q_z O.
+Proof. exact @qasm_rule_z. Qed.
+Print Assumptions C19_qasm_rule_z.
+
+Theorem C19_qasm_rule_s : forall (K : Type) (O : Ops K), Laws O -> spec_ZPow O (w8 O) (w8c O) (k1 O) = q_s O.
+Proof. exact @qasm_rule_s. Qed.
+Print Assumptions C19_qasm_rule_s.
+
+Theorem C19_qasm_rule_sdg : forall (K : Type) (O : Ops K), Laws O -> spec_ZPow O (w8c O) (w8 O) (k1 O) = q_sdg O.
+Proof. exact @qasm_rule_sdg. Qed.
+Print Assumptions C19_qasm_rule_sdg.
+
+Theorem C19_qasm_rule_t : forall (K : Type) (O : Ops K), Laws O -> forall r rc : K, kmul O r rc = k1 O -> kmul O r r = w8 O -> spec_ZPow O r rc (k1 O) = q_t O.
+Proof. exact @qasm_rule_t. Qed.
+Print Assumptions C19_qasm_rule_t.
+
+Theorem C19_qasm_rule_tdg : forall (K : Type) (O : Ops K), Laws O -> forall r rc : K, kmul O r rc = k1 O -> kmul O r r = w8c O -> spec_ZPow O r rc (k1 O) = q_tdg O.
+Proof. exact @qasm_rule_tdg. Qed.
+Print Assumptions C19_qasm_rule_tdg.
+
+Theorem C19_qasm_rule_rz : forall (K : Type) (O : Ops K), Laws O -> forall r rc g : K, kmul O r rc = k1 O -> spec_ZPow O r rc g = mscale O g (q_rz O r rc).
+Proof. exact @qasm_rule_rz. Qed.
+Print Assumptions C19_qasm_rule_rz.
+
+Theorem C19_qasm_rule_h : forall (K : Type) (O : Ops K), Laws O -> spec_HPow O (ki O) (kopp O (ki O)) (k1 O) = q_h O.
+Proof. exact @qasm_rule_h. Qed.
+Print Assumptions C19_qasm_rule_h.
+
+Theorem C19_qasm_rule_h0 : forall (K : Type) (O : Ops K), Laws O -> spec_HPow O (k1 O) (k1 O) (k1 O) = q_id O.
+Proof. exact @qasm_rule_h0. Qed.
+Print Assumptions C19_qasm_rule_h0.
+
+Theorem C19_qasm_rule_hpow : forall (K : Type) (O0 : Ops K), Laws O0 -> forall r rc g : K, kmul O0 r rc = k1 O0 -> forall q qc : K, kmul O0 q qc = k1 O0 -> kmul O0 q q = w8 O0 -> spec_HPow O0 r rc g = mscale O0 (kmul O0 g r) (mprod O0 2 (q_ry O0 q qc :: q_rx O0 r rc :: q_ry O0 qc q :: nil)).
+Proof. exact @qasm_rule_hpow. Qed.
+Print Assumptions C19_qasm_rule_hpow.
+
+Theorem C19_qasm_rule_identity : forall (K : Type) (O0 : Ops K), Laws O0 -> mid O0 2 = q_id O0.
+Proof. exact @qasm_rule_identity. Qed.
+Print Assumptions C19_qasm_rule_identity.
+
+(* ---- two- and three-qubit rules ---- *)
+Theorem C19_qasm_rule_cz : forall (K : Type) (O : Ops K), Laws O -> forall r rc g : K, kmul O r rc = k1 O -> kmul O r r = kopp O (k1 O) -> spec_CZPow O r rc g = mscale O g (q_cz O).
+Proof. exact @qasm_rule_cz. Qed.
+Print Assumptions C19_qasm_rule_cz.
+
+Theorem C19_qasm_rule_cx : forall (K : Type) (O : Ops K), Laws O -> forall r rc g : K, kmul O r rc = k1 O -> kmul O r r = kopp O (k1 O) -> spec_CXPow O r rc g = mscale O g (q_CX O).
+Proof. exact @qasm_rule_cx. Qed.
+Print Assumptions C19_qasm_rule_cx.
+
+Theorem C19_qasm_rule_cy : forall (K : Type) (O : Ops K), Laws O -> forall r rc g : K, kmul O r rc = k1 O -> kmul O r r = kopp O (k1 O) -> spec_CYPow O r rc g = mscale O g (q_cy O).
+Proof. exact @qasm_rule_cy. Qed.
+Print Assumptions C19_qasm_rule_cy.
+
+Theorem C19_qasm_rule_swap : forall (K : Type) (O : Ops K), Laws O -> forall g : K, spec_SwapPow O (ki O) (kopp O (ki O)) g = mscale O g (q_swap O).
+Proof. exact @qasm_rule_swap. Qed.
+Print Assumptions C19_qasm_rule_swap.
+
+Theorem C19_qasm_rule_ccx : forall (K : Type) (O : Ops K), Laws O -> forall g : K, spec_CCXPow O (ki O) (kopp O (ki O)) g = mscale O g (q_ccx O).
+Proof. exact @qasm_rule_ccx. Qed.
+Print Assumptions C19_qasm_rule_ccx.
+
+Theorem C19_qasm_rule_ccz : forall (K : Type) (O0 : Ops K), Laws O0 -> forall g : K, spec_CCZPow O0 (ki O0) (kopp O0 (ki O0)) g = mscale O0 g (body_unitary O0 3 ((q_h O0, 2%nat :: nil) :: (q_ccx O0, 0%nat :: 1%nat :: 2%nat :: nil) :: (q_h O0, 2%nat :: nil) :: nil)).
+Proof. exact @qasm_rule_ccz. Qed.
+Print Assumptions C19_qasm_rule_ccz.
+
+Theorem C19_qasm_rule_ccy : forall (K : Type) (O0 : Ops K), Laws O0 -> forall g : K, spec_CCYPow O0 (ki O0) (kopp O0 (ki O0)) g = mscale O0 g (body_unitary O0 3 ((q_sdg O0, 2%nat :: nil) :: (q_ccx O0, 0%nat :: 1%nat :: 2%nat :: nil) :: (q_s O0, 2%nat :: nil) :: nil)).
+Proof. exact @qasm_rule_ccy. Qed.
+Print Assumptions C19_qasm_rule_ccy.
+
+Theorem C19_qasm_rule_cswap : forall (K : Type) (O : Ops K), spec_CSwap O = q_cswap O.
+Proof. exact @qasm_rule_cswap. Qed.
+Print Assumptions C19_qasm_rule_cswap.
+
+Theorem C19_qasm_rule_ctrl_x : forall (K : Type) (O0 : Ops K), Laws O0 -> ctrl_matrix O0 (2%nat :: nil) ((1%nat :: nil) :: nil) (spec_XPow O0 (ki O0) (kopp O0 (ki O0)) (k1 O0)) = q_CX O0.
+Proof. exact @qasm_rule_ctrl_x. Qed.
+Print Assumptions C19_qasm_rule_ctrl_x.
+
+Theorem C19_qasm_rule_ctrl_y : forall (K : Type) (O0 : Ops K), Laws O0 -> ctrl_matrix O0 (2%nat :: nil) ((1%nat :: nil) :: nil) (spec_YPow O0 (ki O0) (kopp O0 (ki O0)) (k1 O0)) = q_cy O0.
+Proof. exact @qasm_rule_ctrl_y. Qed.
+Print Assumptions C19_qasm_rule_ctrl_y.
+
+Theorem C19_qasm_rule_ctrl_z : forall (K : Type) (O0 : Ops K), Laws O0 -> ctrl_matrix O0 (2%nat :: nil) ((1%nat :: nil) :: nil) (spec_ZPow O0 (ki O0) (kopp O0 (ki O0)) (k1 O0)) = q_cz O0.
+Proof. exact @qasm_rule_ctrl_z. Qed.
+Print Assumptions C19_qasm_rule_ctrl_z.
+
+Theorem C19_qasm_rule_ctrl_h : ctrl_matrix O8 (2%nat :: nil) ((1%nat :: nil) :: nil) (spec_HPow O8 (ki O8) (kopp O8 (ki O8)) (k1 O8)) = mscale O8 (w8c O8) (q_ch O8).
+Proof. exact @qasm_rule_ctrl_h. Qed.
+Print Assumptions C19_qasm_rule_ctrl_h.
+
+(* ---- u3 conventions: QasmUGate, PhasedXPowGate, PhasedXZGate (and through it one-qubit MatrixGate) ---- *)
+Theorem C19_qasm_rule_u3 : forall (K : Type) (O0 : Ops K), Laws O0 -> forall a ac bh bhc ch chc : K, kmul O0 a ac = k1 O0 -> kmul O0 bh bhc = k1 O0 -> kmul O0 ch chc = k1 O0 -> mscale O0 (kmul O0 bh ch) (mprod O0 2 (spec_ZPow O0 ch chc chc :: spec_YPow O0 a ac ac :: spec_ZPow O0 bh bhc bhc :: nil)) = q_u3 O0 a ac (kmul O0 bh bh) (kmul O0 ch ch).
+Proof. exact @qasm_rule_u3. Qed.
+Print Assumptions C19_qasm_rule_u3.
+
+Theorem C19_qasm_u3_theta_period : forall (K : Type) (O : Ops K), Laws O -> forall a ac bh bhc ch chc : K, kmul O a ac = k1 O -> kmul O bh bhc = k1 O -> kmul O ch chc = k1 O -> forall b c : K, q_u3 O (kopp O a) (kopp O ac) b c = mscale O (kopp O (k1 O)) (q_u3 O a ac b c).
+Proof. exact @qasm_u3_theta_period. Qed.
+Print Assumptions C19_qasm_u3_theta_period.
+
+Theorem C19_qasm_rule_phasedx : forall (K : Type) (O : Ops K), Laws O -> forall f fc r rc g : K, kmul O f fc = k1 O -> kmul O r rc = k1 O -> spec_PhasedX O f fc r rc g = mscale O (kmul O g r) (q_u3 O rc r (kmul O (ki O) f) (kmul O (kopp O (ki O)) fc)).
+Proof. exact @qasm_rule_phasedx. Qed.
+Print Assumptions C19_qasm_rule_phasedx.
+
+Theorem C19_qasm_rule_phasedx_half : forall (K : Type) (O : Ops K), Laws O -> forall f fc r rc g : K, kmul O f fc = k1 O -> kmul O r rc = k1 O -> spec_PhasedX O f fc (w8 O) (w8c O) g = mscale O (kmul O g (w8 O)) (q_u2 O (kmul O (kopp O (ki O)) f) (kmul O (ki O) fc)).
+Proof. exact @qasm_rule_phasedx_half. Qed.
+Print Assumptions C19_qasm_rule_phasedx_half.
+
+Theorem C19_qasm_rule_phasedx_mhalf : forall (K : Type) (O : Ops K), Laws O -> forall f fc r rc g : K, kmul O f fc = k1 O -> kmul O r rc = k1 O -> spec_PhasedX O f fc (w8c O) (w8 O) g = mscale O (kmul O g (w8c O)) (q_u2 O (kmul O (ki O) f) (kmul O (kopp O (ki O)) fc)).
+Proof. exact @qasm_rule_phasedx_mhalf. Qed.
+Print Assumptions C19_qasm_rule_phasedx_mhalf.
+
+Theorem C19_qasm_rule_phasedxz : forall (K : Type) (O : Ops K), Laws O -> forall f fc r rc : K, kmul O f fc = k1 O -> kmul O r rc = k1 O -> forall fz fzc : K, kmul O fz fzc = k1 O -> spec_PhasedXZ O f fc fz fzc r rc = mscale O r (q_u3 O r rc (kmul O (kmul O (kopp O (ki O)) f) fz) (kmul O (ki O) fc)).
+Proof. exact @qasm_rule_phasedxz. Qed.
+Print Assumptions C19_qasm_rule_phasedxz.
+
+(* ---- register layout and program semantics ---- *)
+Theorem C19_qasm_registers_spec : forall ms : list meas, (forall n i : nat, (i < n)%nat -> nth i (qubit_ids n) 0%nat = i) /\ NoDup (creg_keys ms) /\ (forall k : nat, In k (creg_keys ms) -> exists m : meas, In m ms /\ mkey m = k) /\ (forall m : meas, In m ms -> nth (reg_of ms (mkey m)) (creg_keys ms) 0%nat = mkey m /\ (reg_of ms (mkey m) < length (cregs ms))%nat /\ (length (mqubits m) <= creg_size ms (mkey m))%nat /\ (exists m' : meas, In m' ms /\ mkey m' = mkey m /\ length (mqubits m') = creg_size ms (mkey m)) /\ only_measures (measure_stmts ms m) = map (fun p : nat * nat => (snd p, reg_of ms (mkey m), fst p)) (combine (seq 0 (length (mqubits m))) (mqubits m))) /\ (forall m1 m2 : meas, In m1 ms -> In m2 ms -> reg_of ms (mkey m1) = reg_of ms (mkey m2) -> mkey m1 = mkey m2).
+Proof. exact @qasm_registers_spec. Qed.
+Print Assumptions C19_qasm_registers_spec.
+
+Theorem C19_qexec_is_exec : forall (K : Type) (O : Ops K) (sh : list nat) (prog : list qstmt) (mops : list mop) (init : list K), map qstmt_mop prog = map Some mops -> qexec O sh prog init = exec O sh mops init.
+Proof. exact @qexec_is_exec. Qed.
+Print Assumptions C19_qexec_is_exec.
+
+Theorem C19_qcond_one_bit : forall (r : list recd) (reg : nat), qcond_eval r (QCond reg 1 1 true) = match eval_cond (CKey (bit_key reg 0) None false) r with | Some b => b | None => false end \/ (exists e : recd, pick (key_records (bit_key reg 0) r) None false = Some e /\ (2 <= rec_value e)%nat).
+Proof. exact @qcond_one_bit. Qed.
+Print Assumptions C19_qcond_one_bit.
+
+Theorem C19_qasm_measure_invert_1q : forall (K : Type) (O0 : Ops K), Laws O0 -> forall (w : K) (rcd : list recd) (p0 p1 : K) (key : nat), let b := {| bw := w; brec := rcd; bpsi := p0 :: p1 :: nil |} in Forall2 branch_eq (rev (flat_map (step O0 (2%nat :: nil) (MGate (Xg O0))) (flat_map (step O0 (2%nat :: nil) (MMeasure key (0%nat :: nil) (false :: nil) nil)) (step O0 (2%nat :: nil) (MGate (Xg O0)) b)))) (step O0 (2%nat :: nil) (MMeasure key (0%nat :: nil) (true :: nil) nil) b).
+Proof. exact @qasm_measure_invert_1q. Qed.
+Print Assumptions C19_qasm_measure_invert_1q.
+
+Theorem C19_qasm_measure_invert_2q : forall (K : Type) (O0 : Ops K), Laws O0 -> forall (w : K) (rcd : list recd) (p0 p1 p2 p3 : K) (key : nat), let b := {| bw := w; brec := rcd; bpsi := p0 :: p1 :: p2 :: p3 :: nil |} in Forall2 branch_eq (rev (flat_map (step O0 (2%nat :: 2%nat :: nil) (MGate (Xg1 O0))) (flat_map (step O0 (2%nat :: 2%nat :: nil) (MMeasure key (1%nat :: nil) (false :: nil) nil)) (step O0 (2%nat :: 2%nat :: nil) (MGate (Xg1 O0)) b)))) (step O0 (2%nat :: 2%nat :: nil) (MMeasure key (1%nat :: nil) (true :: nil) nil) b).
+Proof. exact @qasm_measure_invert_2q. Qed.
+Print Assumptions C19_qasm_measure_invert_2q.
+
+(* ---- the library transcription: bodies of qelib1.inc, stdgates.inc versus qelib1.inc ---- *)
+Theorem C19_qelib_ccx_body : body_unitary O8 3 (ccx_body O8) = q_ccx O8.
+Proof. exact @qelib_ccx_body. Qed.
+Print Assumptions C19_qelib_ccx_body.
+
+Theorem C19_qelib_cswap_body : body_unitary O8 3 (cswap_body O8) = q_cswap O8.
+Proof. exact @qelib_cswap_body. Qed.
+Print Assumptions C19_qelib_cswap_body.
+
+Theorem C19_qelib_ch_body : q_ch O8 = mscale O8 (w8 O8) (ctrl1 O8 ((ks2 O8 :: ks2 O8 :: nil) :: (ks2 O8 :: kopp O8 (ks2 O8) :: nil) :: nil)).
+Proof. exact @qelib_ch_body. Qed.
+Print Assumptions C19_qelib_ch_body.
+
+Theorem C19_stdgates_const_same : forallb (fun g : qgate => k8m_eqb (qmat3 O8 g) (qmat2 O8 g)) const_gates = true.
+Proof. exact @stdgates_const_same. Qed.
+Print Assumptions C19_stdgates_const_same.
+
+Theorem C19_stdgates_sx : qmat3 O8 QSx = mscale O8 (w8 O8) (qmat2 O8 QSx).
+Proof. exact @stdgates_sx. Qed.
+Print Assumptions C19_stdgates_sx.
+
+Theorem C19_stdgates_ch : qmat3 O8 QCh = mscale O8 (w8c O8) (qmat2 O8 QCh).
+Proof. exact @stdgates_ch. Qed.
+Print Assumptions C19_stdgates_ch.
+
+Theorem C19_stdgates_u3 : forall (K : Type) (O : Ops K), Laws O -> forall a ac bh bhc ch chc : K, kmul O a ac = k1 O -> kmul O bh bhc = k1 O -> kmul O ch chc = k1 O -> qmat3 O (QU3 a ac bh bhc ch chc) = mscale O (kmul O bhc chc) (qmat2 O (QU3 a ac bh bhc ch chc)).
+Proof. exact @stdgates_u3. Qed.
+Print Assumptions C19_stdgates_u3.
+
+Theorem C19_stdgates_u2 : forall (K : Type) (O : Ops K), Laws O -> forall a ac bh bhc ch chc : K, kmul O a ac = k1 O -> kmul O bh bhc = k1 O -> kmul O ch chc = k1 O -> qmat3 O (QU2 bh bhc ch chc) = mscale O (kmul O bhc chc) (qmat2 O (QU2 bh bhc ch chc)).
+Proof. exact @stdgates_u2. Qed.
+Print Assumptions C19_stdgates_u2.
+
+Theorem C19_stdgates_u1 : forall (K : Type) (O : Ops K), Laws O -> forall a ac bh bhc ch chc : K, kmul O a ac = k1 O -> kmul O bh bhc = k1 O -> kmul O ch chc = k1 O -> qmat3 O (QU1 ch chc) = qmat2 O (QU1 ch chc).
+Proof. exact @stdgates_u1. Qed.
+Print Assumptions C19_stdgates_u1.
+
+Theorem C19_stdgates_rx : forall (K : Type) (O : Ops K), Laws O -> forall a ac bh bhc ch chc : K, kmul O a ac = k1 O -> kmul O bh bhc = k1 O -> kmul O ch chc = k1 O -> qmat3 O (QRx a ac) = qmat2 O (QRx a ac).
+Proof. exact @stdgates_rx. Qed.
+Print Assumptions C19_stdgates_rx.
+
+Theorem C19_stdgates_ry : forall (K : Type) (O : Ops K), Laws O -> forall a ac bh bhc ch chc : K, kmul O a ac = k1 O -> kmul O bh bhc = k1 O -> kmul O ch chc = k1 O -> qmat3 O (QRy a ac) = qmat2 O (QRy a ac).
+Proof. exact @stdgates_ry. Qed.
+Print Assumptions C19_stdgates_ry.
+
+Theorem C19_stdgates_rz : forall (K : Type) (O : Ops K), Laws O -> forall a ac bh bhc ch chc : K, kmul O a ac = k1 O -> kmul O bh bhc = k1 O -> kmul O ch chc = k1 O -> qmat3 O (QRz a ac) = mscale O ac (qmat2 O (QRz a ac)).
+Proof. exact @stdgates_rz. Qed.
+Print Assumptions C19_stdgates_rz.
+
+Theorem C19_stdgates_crz : forall (K : Type) (O : Ops K), Laws O -> forall a ac bh bhc ch chc : K, kmul O a ac = k1 O -> kmul O bh bhc = k1 O -> kmul O ch chc = k1 O -> qmat3 O (QCrz a ac) = qmat2 O (QCrz a ac).
+Proof. exact @stdgates_crz. Qed.
+Print Assumptions C19_stdgates_crz.
+
+(* ---- non-vacuity: a model of the Laws containing the symbolic units the theorems quantify over ---- *)
+Example C19_K16Laws : Laws O16.
+Proof. exact @K16Laws. Qed.
+Print Assumptions C19_K16Laws.
+
+Example C19_units_pi8 : kmul O16 zeta16 zeta16c = k1 O16 /\ kmul O16 zeta16 zeta16 = w8 O16.
+Proof. exact @units_pi8. Qed.
+Print Assumptions C19_units_pi8.
+
+Example C19_units_mpi8 : kmul O16 zeta16c zeta16 = k1 O16 /\ kmul O16 zeta16c zeta16c = w8c O16.
+Proof. exact @units_mpi8. Qed.
+Print Assumptions C19_units_mpi8.
+
+Example C19_units_odd : kmul O16 (ki O16) (kopp O16 (ki O16)) = k1 O16 /\ kmul O16 (ki O16) (ki O16) = kopp O16 (k1 O16).
+Proof. exact @units_odd. Qed.
+Print Assumptions C19_units_odd.
+
+Example C19_units_generic : kmul O16 pyth (kconj O16 pyth) = k1 O16.
+Proof. exact @units_generic. Qed.
+Print Assumptions C19_units_generic.
+
+Example C19_hpow_instance : spec_HPow O16 pyth (kconj O16 pyth) (k1 O16) = mscale O16 (kmul O16 (k1 O16) pyth) (mprod O16 2 (q_ry O16 zeta16 zeta16c :: q_rx O16 pyth (kconj O16 pyth) :: q_ry O16 zeta16c zeta16 :: nil)).
+Proof. exact @hpow_instance. Qed.
+Print Assumptions C19_hpow_instance.
+
